@@ -115,6 +115,10 @@ def _hash_file(h, path):
         h.update(b"<missing>")
 
 
+# cargo features switched on for the analysed build of a package (additive ones that only ADD code the properties talk about:
+# many_cpus_impl's `test-util` compiles the fake platform, which C10 quantifies over: "for all fake topologies")
+PKG_FEATURES = {"many_cpus_impl": ["test-util"]}
+
 VARIANTS = {
     "": "",
     # release-like cfg: debug assertions (and with them cfg(debug_assertions) code such as the
@@ -127,7 +131,7 @@ def source_hash(pkg, repo=None, variant=""):
     repo = repo or REPO
     meta = metadata(repo)
     h = hashlib.sha256()
-    h.update((RUSTFLAGS + VARIANTS[variant]).encode())
+    h.update((RUSTFLAGS + VARIANTS[variant] + ",".join(PKG_FEATURES.get(pkg, []))).encode())
     h.update(os.path.abspath(repo).encode() if os.path.abspath(repo) != "/repo" else b"")
     _hash_file(h, DRIVER)
     _hash_file(h, os.path.join(repo, "Cargo.toml"))
@@ -188,7 +192,8 @@ def generate(pkg, repo=None, target=None, facts_dir=None, log=None, variant=""):
     env["FACTGEN_OUT"] = raw_dir
     env["FACTGEN_CRATES"] = lib
     t0 = time.time()
-    r = _run(["cargo", "+nightly", "check", "--offline", "--lib", "-p", pkg], cwd=repo, env=env)
+    feats = ["--features", ",".join(PKG_FEATURES[pkg])] if PKG_FEATURES.get(pkg) else []
+    r = _run(["cargo", "+nightly", "check", "--offline", "--lib", "-p", pkg] + feats, cwd=repo, env=env)
     if log:
         log(f"factgen {pkg}: cargo check exit {r.returncode} in {time.time()-t0:.1f}s")
     if r.returncode != 0:
